@@ -713,3 +713,21 @@ macro_rules! run_with_debugger {
 }
 run_with_debugger!(c16_run_loop_proceed_executes, 0, crate::verif_h::exits::never);
 run_with_debugger!(c09_run_loop_exit_program, 2, crate::verif_h::exits::never);
+
+// ----------------------------------------------------------------- negative control (thorough tier)
+/// LDR against a deliberately wrong oracle (address + 1): must come back FAILED, otherwise the op harnesses
+/// could not fail (guards against a vacuous harness / an oracle that follows the implementation)
+#[kani::proof]
+#[kani::unwind(9)]
+fn c02_control_wrong_oracle_ldr() {
+    let mut s = any_state();
+    let instr: u16 = kani::any();
+    kani::assume(instr >> 12 == 0x6);
+    let probe: u16 = kani::any();
+    let pre = snap(&s);
+    let pre_probe = s.mem[probe as usize];
+    let wrong = instr ^ 1; // offset6 off by one
+    let e = step(&pre, wrong, true, |a| s.mem[a as usize]).unwrap();
+    s.ldr(instr);
+    assert_effect(&s, &e, probe, pre_probe);
+}
